@@ -130,7 +130,40 @@ class InvertIfElse(ast.NodeTransformer):
         return n
 
 
-TRANSFORMS = {"T1": RenameLocals, "T2": SwapCommutative, "T3": InsertLogging, "T4": ExpandAug, "T5": InvertIfElse}
+class TempForReturn(ast.NodeTransformer):
+    """T6: `return <expr>` -> `result_tmp = <expr>; return result_tmp` for non-trivial return expressions (not in lambdas / generators' yields)."""
+
+    def _fix(self, body):
+        out = []
+        for st in body:
+            if isinstance(st, ast.Return) and st.value is not None and not isinstance(st.value, (ast.Name, ast.Constant)):
+                out.append(ast.copy_location(ast.Assign(targets=[ast.Name(id="result_tmp", ctx=ast.Store())], value=st.value), st))
+                out.append(ast.copy_location(ast.Return(value=ast.Name(id="result_tmp", ctx=ast.Load())), st))
+            else:
+                out.append(st)
+        return out
+
+    def generic_visit(self, node):
+        super().generic_visit(node)
+        for f in ("body", "orelse", "finalbody"):
+            b = getattr(node, f, None)
+            if isinstance(b, list) and b and isinstance(b[0], ast.stmt):
+                setattr(node, f, self._fix(b))
+        return node
+
+
+class SplitAnd(ast.NodeTransformer):
+    """T7: `if a and b: X` (no else) -> `if a: if b: X`."""
+
+    def visit_If(self, n):
+        self.generic_visit(n)
+        if not n.orelse and isinstance(n.test, ast.BoolOp) and isinstance(n.test.op, ast.And) and len(n.test.values) == 2:
+            inner = ast.copy_location(ast.If(test=n.test.values[1], body=n.body, orelse=[]), n)
+            return ast.copy_location(ast.If(test=n.test.values[0], body=[inner], orelse=[]), n)
+        return n
+
+
+TRANSFORMS = {"T1": RenameLocals, "T2": SwapCommutative, "T3": InsertLogging, "T4": ExpandAug, "T5": InvertIfElse, "T6": TempForReturn, "T7": SplitAnd}
 
 
 def transform(text: str, tname: str) -> str | None:
@@ -174,7 +207,7 @@ def job(args):
 
 def main():
     args = [a for a in sys.argv[1:] if not a.startswith("--")]
-    ts = [a for a in args if a in TRANSFORMS] or list(TRANSFORMS)
+    ts = [a for a in args if a in TRANSFORMS] or ["T1", "T2", "T3", "T4", "T5"]  # T6 / T7 only on request
     pids = PIDS
     only_files = None
     for a in sys.argv[1:]:
